@@ -9,6 +9,8 @@ from contracts import c_index, c_step, c_blocks
 
 # label prefix -> properties that claim it
 OWNERS = [
+    ("digital_rf_create_rf_data_index.T_unbounded", ("C04", "C06", "C19", "C01")),
+    ("L-wf-transitive", ("C04", "C06", "C19", "C01", "C05")),
     ("digital_rf_create_rf_data_index.reject_unbounded", ("C05",)),
     ("digital_rf_create_rf_data_index.reject", ("C05",)),
     ("digital_rf_create_rf_data_index.accepts_wellformed", ("C05", "C01")),
@@ -102,6 +104,18 @@ def add_step_obligations(ck, tu, X, want, units=("index", "step", "blocks")):
         c_index.verify_index_reject_unbounded(it)
         c_index.verify_global_sample_unbounded(it)
         take(it.obls)
+        it = cfront.CInterp(tu, externals=X, config={"prune_full": False})
+        c_index.verify_index_T_unbounded(it)
+        take(it.obls)
+        # the transitive form of WF used by the invariants follows from the adjacent form (C05's list) by induction on the
+        # index distance: base and step are discharged here, the induction principle itself is the only meta-level step
+        import z3 as _z3
+        g_, b_ = _z3.Array("g", _z3.IntSort(), _z3.IntSort()), _z3.Array("b", _z3.IntSort(), _z3.IntSort())
+        x_, y_, L_ = _z3.Ints("x y index_len")
+        P = lambda a_, c_: _z3.And(_z3.Select(b_, a_) < _z3.Select(b_, c_), _z3.Select(g_, a_) < _z3.Select(g_, c_),
+                                   _z3.Select(b_, c_) - _z3.Select(b_, a_) <= _z3.Select(g_, c_) - _z3.Select(g_, a_))
+        take([Obl("L-wf-transitive.step", "spec", 0, [0 <= x_, x_ < y_, y_ + 1 < L_, P(x_, y_), P(y_, y_ + 1)], P(x_, y_ + 1), kind="lemma"),
+              Obl("L-wf-transitive.base", "spec", 0, [0 <= x_, x_ + 1 < L_, P(x_, x_ + 1)], P(x_, x_ + 1), kind="lemma")])
         for R in range(1, (3 if tier == "thorough" else 2) + 1):
             for ex in (False, True):
                 it = cfront.CInterp(tu, externals=X)
@@ -113,7 +127,9 @@ def add_step_obligations(ck, tu, X, want, units=("index", "step", "blocks")):
             ck.add_function(tu.func_info(f))
         ck.extra.setdefault("bounded_functions", []).append(
             "digital_rf_create_rf_data_index / digital_rf_get_global_sample: loops unrolled for index_len <= %d with every value symbolic "
-            "(bounded stand-in; callers are verified against the contract for all index_len)" % LM)
+            "(bounded stand-in; callers are verified against the contract for all index_len). Proved for EVERY index_len by loop invariants: "
+            "samples_to_write (T_unbounded), reject-iff-malformed (reject_unbounded), get_global_sample (unbounded); still bounded: exact rows / row_count "
+            "of the second pass and write_rf_data_index's rebasing loop" % LM)
     if "step" in units:
         for sc in ("fresh", "open"):
             it = cfront.CInterp(tu, externals=X, config={"inline": c_step.INLINE, "specs": {}, "prune_full": False})
